@@ -33,7 +33,7 @@ ASSUMPTIONS = ["the behaviour/default tables re-stated here are the documented o
 MONITORS = ["policy_outcome", "first_offender_named", "unmodified", "second_call_same", "roundtrip_sm_ssc_sm"]
 REQUIRED = ["returned", "InvalidPropertyException", "NotImplementedError", "partial_mapping", "default_with_blanks",
             "value_differs_from_default_only_by_inner_blanks_or_case", "default_padded_with_a_non_ascii_or_rare_blank",
-            "template_is_an_instance_of_a_subclass", "template_with_legacy_alias_keys", "template_chart_equal_to_a_source_chart",
+            "template_is_an_instance_of_a_subclass", "template_with_legacy_alias_keys", "template_chart_equal_to_a_source_chart", "roundtrip_source_with_FREEZES_and_no_STOPS", "chart_template_with_extra_components",
             "nonempty_default_value", "two_offenders_table_order_differs", "template_with_charts", "chart_offender",
             "copy_anyway_simfile_level", "error_behaviour", "template_empty", "chart_property_after_notes",
             "custom_key_resembling_a_table_entry"]
@@ -152,7 +152,7 @@ def cases(ctx):
     for i in range(n):
         yield {"kind": "one", "source": gen_source(rng), "mapping": gen_mapping(rng),
                "template": rng.choice(["none", "none", "blank", "sparse", "with_charts", "empty", "subclass", "legacy_alias", "with_equal_chart"]),
-               "chart_template": rng.choice(["none", "none", "blank", "custom", "subclass"])}
+               "chart_template": rng.choice(["none", "none", "blank", "custom", "subclass", "blank_with_extradata"])}
     # all 4^5 mappings on small simfiles
     smalls = ctx.split(2 if quick else 64)
     for _ in range(smalls):
@@ -258,7 +258,11 @@ def templates(case, ssc=None):
         # an instance of the caller's own subclass of SMSimfile: an SM simfile like any other
         st = type("MySMSimfile", (SMSimfile,), {})(string="#TITLE:tpl;\n#TPLKEY:kept;\n")
     c_ = case.get("chart_template", "none")
-    if c_ == "subclass":
+    if c_ == "blank_with_extradata":
+        # blank on its six fields, but carrying extra NOTES components: still the caller's template
+        ct = SMChart.blank()
+        ct.extradata = ["tpl-extra", "2"]
+    elif c_ == "subclass":
         ct = type("MySMChart", (SMChart,), {}).from_msd(["tpl-steps", "tpl desc", "Edit", "1", "9,9", "tpl notes"])
     elif c_ == "blank":
         ct = SMChart.blank()
@@ -309,6 +313,13 @@ def run_one(ctx, source, mapping, case, label):
         got = ("NotImplementedError",)
     except Exception as e:
         got = ("other:" + type(e).__name__, repr(e))
+    if ct is not None and getattr(ct, "extradata", None) and got[0] == "ok":
+        ctx.feat("chart_template_with_extra_components")
+        n_t = len(st.charts) if st is not None else 0
+        for c in res.charts[n_t:]:
+            if list(getattr(c, "extradata", None) or []) != list(ct.extradata) or c.extradata is ct.extradata:
+                ctx.violation(f"{label}:chart-template-extra-components-not-respected", {"got": repr(getattr(c, "extradata", None)), "template": repr(ct.extradata)})
+                break
     ctx.outcome(want[0] if want[0] != "ok" else "returned")
     ctx.feat(want[0] if want[0] != "ok" else "returned")
     detail = {"mapping": mapping, "source": source, "template": case.get("template"), "chart_template": case.get("chart_template")}
@@ -419,6 +430,10 @@ def check(ctx, case):
         sm[k] = rng.choice(["", "v " + k, "a:b", "x;y", "0.000=1.000"])
     sm["OFFSET"], sm["BPMS"] = "0.000", "0.000=120.000"
     sm["STOPS"] = rng.choice(["", "4.000=1.000"])
+    if "FREEZES" in sm and rng.random() < 0.5:
+        del sm["STOPS"]   # an old file: its stops are spelled FREEZES only (a well-formed list, like any stops)
+        sm["FREEZES"] = rng.choice(["", "4.000=1.000", "4.000=1.000,8.000=0.500"])
+        ctx.feat("roundtrip_source_with_FREEZES_and_no_STOPS")
     for i in range(rng.randint(0, 3)):
         sm.charts.append(SMChart.from_msd(["dance-single", f"d{i}", "Hard", str(i), "0,0", "0000\n0001\n1000\n0000"]))
     before = sm_state(sm)
